@@ -6,6 +6,7 @@ Run as `lake env lean --run Driver.lean < requests > replies`. -/
 def dispatch (toks : List String) : String :=
   match toks with
   | "c16" :: rest => Pb.Drv.C16.handle rest
+  | "c17" :: rest => Pb.Drv.C17.handle rest
   | "c18" :: rest => Pb.Drv.C18.handle rest
   | "c01" :: rest => Pb.Drv.C01.handle rest
   | "c02" :: rest => Pb.Drv.C02.handle rest
